@@ -400,6 +400,15 @@ fn kind(out: &mut Vec<GSpec>) {
             thorough_bodies: if k == 'X' || k == 'S' { vec![] } else { vec![0] },
         });
     }
+    // the same for a grammar that defines only WHITESPACE (its own branch of the skip-type selection)
+    for k in ['S', 'N'] {
+        cfgs.push(Cfg {
+            name: format!("wsp{}", k),
+            skip: vec![RuleSpec::helper("WHITESPACE", k, "!\"#b\" ~ \"#\" ~ \"a\"?")],
+            quick_bodies: vec![0],
+            thorough_bodies: vec![],
+        });
+    }
     // explicit references to WHITESPACE / COMMENT from rules of every kind
     cfgs.push(Cfg {
         name: "wsref".into(),
